@@ -480,8 +480,34 @@ def check_value_history(ctx, case):
     ctx.case(case)
 
 
+def check_enc_history(ctx, case):
+    """case = {kind: enc-history, cls, seed, depth}: two equal objects of the class (type-directed generator), one of them serialized
+    first, both given the same in-place edit (vlib/history.py): their bytes must agree — the prescribed bytes are a function of the
+    CONTENT, so a serializer that remembers something of an earlier serialization writes, for one of the two, bytes the CDDL does
+    not prescribe for that content.  No reference encoder is involved."""
+    import random
+    from vlib import history as H
+    from vlib import typegen as T
+    mk = lambda: T.Gen(random.Random(case["seed"]), {}).obj(case["cls"], case["depth"])
+    try:
+        eh = H.encode_history(mk, case["seed"] + "/eh")
+    except Exception:
+        eh = None
+    if eh is None:
+        ctx.count("enc-history:not-applicable")
+        ctx.case(case, nontrivial=False)
+        return
+    ctx.count("enc-history:" + eh["edit"].split("@")[0])
+    if not eh["agree"]:
+        ctx.violation(f"{case['cls']}: after the in-place edit {eh['edit']} an object that had been serialized before writes other bytes than "
+                      "an equal object that had not: the bytes are not a function of the content", case, eh["fresh"], eh["serialized_before"])
+    ctx.case(case)
+
+
 def dispatch(ctx, case):
     k = case["kind"]
+    if k == "enc-history":
+        return check_enc_history(ctx, case)
     if k == "typed-datum":
         return check_typed_datum(ctx, case)
     if k == "value-history":
@@ -541,6 +567,11 @@ def run(ctx):
         dispatch(ctx, {"kind": "typed-datum", "tseed": f"{ctx.seed}-k{i}"})
     for i in range(ctx.budget(200, 5000)):
         dispatch(ctx, {"kind": "value-history", "seed": f"{ctx.seed}-v{i}"})
+    from vlib import typegen as T
+    hist_classes = T.top_level_classes()
+    for i in range(ctx.budget(700, 15000)):
+        dispatch(ctx, {"kind": "enc-history", "cls": hist_classes[i % len(hist_classes)], "seed": f"{ctx.seed}-h{i}",
+                       "depth": rng.choice([2, 3, 3, 4])})
     missing = cov.missing(G.universe())
     ctx.extra["coverage_universe"] = len(G.universe())
     ctx.extra["coverage_missing"] = missing
